@@ -179,10 +179,21 @@ class Rec(AbstractValue):
 def rule_pass_through(ctx, rep):
     model = ctx.model
     rep.rule('R-PASS-THROUGH', 'markdown(), the CLI and __main__ pass inputs through unchanged; UTF-8 text in, encoded bytes out')
+    rule_markdown_entry(ctx, rep, 'R-PASS-THROUGH')
+    rule_cli(ctx, rep)
+
+
+def rule_markdown_entry(ctx, rep, RULE, desc=None):
+    """mistletoe.markdown(): on every path the renderer class is instantiated once and used as a context manager
+    (entered before the document is built, left afterwards), Document(<the input itself>) is built inside, and
+    the result is renderer.render(document)."""
+    model = ctx.model
+    if desc is not None:
+        rep.rule(RULE, desc)
     # ---- mistletoe.markdown
     md = model.func('markdown')
     doc = model.cls('block_token.Document')
-    rep.instance('R-PASS-THROUGH')
+    rep.instance(RULE)
     from ..interp import enumerate_paths
     outcomes = []
 
@@ -210,18 +221,23 @@ def rule_pass_through(ctx, rep):
         outcomes.append((ok_, names_))
     ok = bool(outcomes) and all(o[0] for o in outcomes)
     names = next((o[1] for o in outcomes if not o[0]), outcomes[0][1] if outcomes else [])
-    rep.obligation('R-PASS-THROUGH', ok, {'markdown': names, 'paths': len(outcomes)})
+    rep.obligation(RULE, ok, {'markdown': names, 'paths': len(outcomes)})
     if not ok:
-        rep.find('R-PASS-THROUGH', md.short, 'markdown', 'markdown() has a path on which it does not build Document(<its input, '
+        rep.find(RULE, md.short, 'markdown', 'markdown() has a path on which it does not build Document(<its input, '
                  'unchanged>) inside the renderer context and return renderer.render(document) - the same text then renders '
                  'differently depending on how it is supplied: %s' % names, loc(model.unit_of(md), md.node))
     # default renderer is HtmlRenderer
     d = md.node.args.defaults
     ok = len(d) == 1 and model.resolve_expr(md.modname, d[0]) is model.cls('html_renderer.HtmlRenderer')
-    rep.obligation('R-PASS-THROUGH', ok, {'markdown default renderer': ast.unparse(d[0]) if d else None})
+    rep.obligation(RULE, ok, {'markdown default renderer': ast.unparse(d[0]) if d else None})
     if not ok:
-        rep.find('R-PASS-THROUGH', md.short, 'default-renderer', 'the default renderer of markdown() is not HtmlRenderer',
+        rep.find(RULE, md.short, 'default-renderer', 'the default renderer of markdown() is not HtmlRenderer',
                  loc(model.unit_of(md), md.node))
+
+
+def rule_cli(ctx, rep):
+    model = ctx.model
+    md = model.func('markdown')
     # ---- cli.convert
     cv = model.func('cli.convert')
     cf = model.func('cli.convert_file')
@@ -231,8 +247,8 @@ def rule_pass_through(ctx, rep):
     it.reset_run(Oracle())
     it.func_hooks[cf.qualname] = lambda interp, fi, args, kwargs: log.append(tuple(args)) or None
     R = object()
-    it.call_function(cv, [['a.md', 'b.md', 'c.md'], R], {})
-    ok = log == [('a.md', R), ('b.md', R), ('c.md', R)]
+    it.call_function(cv, [['c.md', 'a.md', 'b.md', 'a.md'], R], {})
+    ok = log == [('c.md', R), ('a.md', R), ('b.md', R), ('a.md', R)]
     rep.obligation('R-PASS-THROUGH', ok, {'convert': repr(log)[:100]})
     if not ok:
         rep.find('R-PASS-THROUGH', cv.short, 'per-file-in-order', 'convert() does not call convert_file(filename, renderer) for '
@@ -275,7 +291,7 @@ def rule_pass_through(ctx, rep):
     ps = model.func('cli.parse')
     ia = model.func('cli.interactive')
     rep.instance('R-PASS-THROUGH')
-    for fnames in (['f1', 'f2'], []):
+    for fnames in (['intro.md', 'body.md', 'appendix.md', 'body.md'], []):     # neither sorted nor free of repeats
         log = []
         it = Interp(model)
         it.reset_run(Oracle())
